@@ -35,6 +35,9 @@ const (
 
 type flags struct{ namespaced, subStatus bool }
 
+// positions of the two flags among NewDefaultRESTStrategy's parameters (found by role in main)
+var idxNamespaced, idxSubStatus = 0, 1
+
 func boolLit(e ast.Expr) (bool, bool) {
 	id, ok := e.(*ast.Ident)
 	if !ok || (id.Name != "true" && id.Name != "false") {
@@ -59,16 +62,9 @@ func newDefault(e ast.Expr) (flags, bool) {
 	if !ok || calleeName(c) != "NewDefaultRESTStrategy" || len(c.Args) != 2 {
 		return flags{}, false
 	}
-	a, ok1 := boolLit(c.Args[0])
-	b, ok2 := boolLit(c.Args[1])
+	a, ok1 := boolLit(c.Args[idxNamespaced])
+	b, ok2 := boolLit(c.Args[idxSubStatus])
 	return flags{a, b}, ok1 && ok2
-}
-
-// behavioural: functions of strategy.go whose behaviour the harness ties to the model by running them; every other
-// function/method of the file is pinned by its (whitespace-normalised) source text.
-var behavioural = map[string]bool{
-	"DefaultRESTStrategy.PrepareForCreate": true, "DefaultRESTStrategy.PrepareForUpdate": true,
-	"DefaultStatusRESTStrategy.PrepareForUpdate": true, "HasObjectMetaSpecStatus": true, "specEqual": true, "semanticEqual": true,
 }
 
 func src(g *lib.Gen, n ast.Node) string {
@@ -79,97 +75,160 @@ func src(g *lib.Gen, n ast.Node) string {
 	return strings.Join(strings.Fields(buf.String()), " ")
 }
 
-// hooksFact: every hook of the strategy types (the generic registry calls them around PrepareFor…: Canonicalize
-// AFTER the comparison and the validation, AllowCreateOnUpdate / AllowUnconditionalUpdate decide which path a
-// request takes, Validate*/WarningsOn*/… would be new hooks), the types' embedded members, and the members of the
-// genericregistry.Store that NewResourceREST fills in (AfterUpdate, Decorator, BeginUpdate … would be new ones).
+func recvName(g *lib.Gen, fd *ast.FuncDecl) string {
+	if fd.Recv == nil || len(fd.Recv.List) != 1 {
+		return ""
+	}
+	rt := fd.Recv.List[0].Type
+	if st, ok := rt.(*ast.StarExpr); ok {
+		rt = st.X
+	}
+	return src(g, rt)
+}
+
+// constBool: the value of a method whose whole body is `return true` / `return false`.
+func constBool(fd *ast.FuncDecl) (bool, bool) {
+	if fd == nil || fd.Body == nil || len(fd.Body.List) != 1 {
+		return false, false
+	}
+	rs, ok := fd.Body.List[0].(*ast.ReturnStmt)
+	if !ok || len(rs.Results) != 1 {
+		return false, false
+	}
+	return boolLit(rs.Results[0])
+}
+
+// hooksFact states what the model and the theorems NEED from the code around PrepareFor…, not how it is spelled:
+//   - which hooks (methods) the two strategy types declare: the surface the generic registry can call. Every known
+//     hook is tied behaviourally by the harness on both endpoints (it runs the stores' own strategies through
+//     rest.BeforeCreate/BeforeUpdate and the real store); a hook of an unknown kind is what has to be noticed;
+//   - the VALUE of AllowCreateOnUpdate for each endpoint's update strategy (own declaration or the embedded main
+//     strategy's): the model's apiStep takes it from here;
+//   - that the status strategy has the main strategy embedded and nothing else (everything it does not declare is the
+//     main strategy's);
+//   - which members of the generic store NewResourceREST sets (names only), and which the status copy overrides.
+//
+// Helper functions, local names, comments and the spelling of bodies are free.
 func hooksFact(g *lib.Gen) string {
-	sf := g.ParseFile(strategyFile)
-	var hooks, types []string
-	for _, d := range sf.Decls {
+	methods := map[string][]string{}
+	decl := map[string]*ast.FuncDecl{}
+	var statusFields []string
+	var decls []ast.Decl
+	pkgFiles, _ := filepath.Glob(filepath.Join(g.Repo, filepath.Dir(strategyFile), "*.go"))
+	sort.Strings(pkgFiles)
+	for _, f := range pkgFiles {
+		if strings.HasSuffix(f, "_test.go") {
+			continue
+		}
+		rel, _ := filepath.Rel(g.Repo, f)
+		decls = append(decls, g.ParseFile(rel).Decls...) // a hook may be declared in any file of the package
+	}
+	for _, d := range decls {
 		switch t := d.(type) {
 		case *ast.FuncDecl:
-			name := t.Name.Name
-			if t.Recv != nil && len(t.Recv.List) == 1 {
-				rt := t.Recv.List[0].Type
-				if st, ok := rt.(*ast.StarExpr); ok {
-					rt = st.X
-				}
-				name = src(g, rt) + "." + name
+			if r := recvName(g, t); r != "" {
+				methods[r] = append(methods[r], t.Name.Name)
+				decl[r+"."+t.Name.Name] = t
 			}
-			body := "behavioural: run by the harness"
-			if !behavioural[name] {
-				if t.Body == nil {
-					lib.Fatalf("%s has no body", name)
-				}
-				body = src(g, t.Type) + " " + src(g, t.Body)
-			}
-			hooks = append(hooks, fmt.Sprintf("  (%q, %q)", name, body))
 		case *ast.GenDecl:
 			if t.Tok != token.TYPE {
 				continue
 			}
 			for _, sp := range t.Specs {
 				ts := sp.(*ast.TypeSpec)
-				types = append(types, fmt.Sprintf("  (%q, %q)", ts.Name.Name, src(g, ts.Type)))
+				if ts.Name.Name != "DefaultStatusRESTStrategy" {
+					continue
+				}
+				st, ok := ts.Type.(*ast.StructType)
+				if !ok {
+					lib.Fatalf("DefaultStatusRESTStrategy is not a struct any more")
+				}
+				for _, f := range st.Fields.List {
+					kind := "embedded "
+					if len(f.Names) > 0 {
+						kind = "field "
+					}
+					statusFields = append(statusFields, kind+src(g, f.Type))
+				}
 			}
 		}
 	}
-	for n := range behavioural {
-		found := false
-		for _, h := range hooks {
-			if strings.HasPrefix(h, fmt.Sprintf("  (%q,", n)) {
-				found = true
-			}
+	for _, t := range []string{"DefaultRESTStrategy", "DefaultStatusRESTStrategy"} {
+		if len(methods[t]) == 0 {
+			lib.Fatalf("type %s declares no methods in %s", t, strategyFile)
 		}
-		if !found {
-			lib.Fatalf("%s no longer exists in %s", n, strategyFile)
+		sort.Strings(methods[t])
+	}
+	mainACU, ok := constBool(decl["DefaultRESTStrategy.AllowCreateOnUpdate"])
+	if !ok {
+		lib.Fatalf("DefaultRESTStrategy.AllowCreateOnUpdate is not a constant any more")
+	}
+	statusACU := mainACU // promoted from the embedded strategy …
+	if d := decl["DefaultStatusRESTStrategy.AllowCreateOnUpdate"]; d != nil {
+		if statusACU, ok = constBool(d); !ok { // … unless the status strategy declares its own
+			lib.Fatalf("DefaultStatusRESTStrategy.AllowCreateOnUpdate is not a constant")
 		}
 	}
-	// NewResourceREST: members of the Store literal and later assignments to store members
+	// NewResourceREST: members of the generic store
 	rf := g.ParseFile("staging/src/github.com/kubewharf/apiserver-runtime/pkg/registry/rest.go")
 	nr := lib.FuncDecl(rf, "", "NewResourceREST")
 	if nr == nil {
 		lib.Fatalf("NewResourceREST not found")
 	}
-	var members []string
+	storeHookFields := map[string]bool{}
+	for _, f := range strings.Fields("NewFunc NewListFunc DefaultQualifiedResource KeyRootFunc KeyFunc ObjectNameFunc TTLFunc PredicateFunc EnableGarbageCollection DeleteCollectionWorkers Decorator CreateStrategy BeginCreate AfterCreate UpdateStrategy BeginUpdate AfterUpdate DeleteStrategy AfterDelete ReturnDeletedObject ShouldDeleteDuringUpdate ExportStrategy TableConvertor ResetFieldsStrategy Storage StorageVersioner InMemoryVersioner DestroyFunc") {
+		storeHookFields[f] = true
+	}
+	lit := map[string]bool{}
+	over := map[string]bool{}
+	nLit := 0
 	ast.Inspect(nr.Body, func(n ast.Node) bool {
 		switch t := n.(type) {
 		case *ast.CompositeLit:
-			if strings.HasSuffix(src(g, t.Type), "genericregistry.Store") {
-				for _, e := range t.Elts {
-					kv, ok := e.(*ast.KeyValueExpr)
-					if !ok {
-						lib.Fatalf("positional member in the genericregistry.Store literal")
+			if t.Type != nil && strings.HasSuffix(src(g, t.Type), ".Store") && !strings.HasSuffix(src(g, t.Type), "StatusREST") {
+				if strings.Contains(src(g, t.Type), "registry") {
+					nLit++
+					for _, e := range t.Elts {
+						kv, ok := e.(*ast.KeyValueExpr)
+						if !ok {
+							lib.Fatalf("positional member in the generic store literal")
+						}
+						lit[src(g, kv.Key)] = true
 					}
-					k := src(g, kv.Key)
-					v := src(g, kv.Value)
-					if k == "NewFunc" || k == "NewListFunc" {
-						v = "func"
-					}
-					members = append(members, fmt.Sprintf("  (%q, %q)", "store."+k, v))
 				}
 			}
 		case *ast.AssignStmt:
-			for i, l := range t.Lhs {
-				if se, ok := l.(*ast.SelectorExpr); ok && i < len(t.Rhs) {
-					if id, ok := se.X.(*ast.Ident); ok && (id.Name == "store" || strings.HasSuffix(id.Name, "Store")) {
-						members = append(members, fmt.Sprintf("  (%q, %q)", id.Name+"."+se.Sel.Name, src(g, t.Rhs[i])))
+			for _, l := range t.Lhs {
+				if se, ok := l.(*ast.SelectorExpr); ok && storeHookFields[se.Sel.Name] {
+					if _, ok := se.X.(*ast.Ident); ok {
+						over[se.Sel.Name] = true
 					}
 				}
 			}
 		}
 		return true
 	})
-	if len(members) == 0 {
-		lib.Fatalf("no genericregistry.Store literal in NewResourceREST")
+	if nLit != 1 {
+		lib.Fatalf("expected one generic store literal in NewResourceREST, found %d", nLit)
+	}
+	keys := func(m map[string]bool) []string {
+		var l []string
+		for k := range m {
+			l = append(l, k)
+		}
+		sort.Strings(l)
+		return l
 	}
 	var b strings.Builder
-	b.WriteString("/-! every function of " + strategyFile + " that is not run by the harness, by its source text -/\n")
-	b.WriteString("def hooks : List (String × String) := [\n" + strings.Join(hooks, ",\n") + "]\n\n")
-	b.WriteString("def strategyTypes : List (String × String) := [\n" + strings.Join(types, ",\n") + "]\n\n")
-	b.WriteString("/-! members of the generic store set by NewResourceREST -/\n")
-	b.WriteString("def storeMembers : List (String × String) := [\n" + strings.Join(members, ",\n") + "]\n")
+	b.WriteString("/-! hooks declared by the strategy types of " + strategyFile + " (method names, sorted) -/\n")
+	b.WriteString("def mainStrategyMethods : List String := " + lib.LeanStrList(methods["DefaultRESTStrategy"]) + "\n")
+	b.WriteString("def statusStrategyMethods : List String := " + lib.LeanStrList(methods["DefaultStatusRESTStrategy"]) + "\n")
+	b.WriteString("def statusStrategyMembers : List String := " + lib.LeanStrList(statusFields) + "\n")
+	b.WriteString("/-! AllowCreateOnUpdate() of the update strategy of the main / the status endpoint -/\n")
+	fmt.Fprintf(&b, "def mainAllowCreateOnUpdate : Bool := %v\ndef statusAllowCreateOnUpdate : Bool := %v\n", mainACU, statusACU)
+	b.WriteString("/-! members of the generic store set by NewResourceREST, and those assigned afterwards (the status copy) -/\n")
+	b.WriteString("def storeMembers : List String := " + lib.LeanStrList(keys(lit)) + "\n")
+	b.WriteString("def storeMembersAssigned : List String := " + lib.LeanStrList(keys(over)) + "\n")
 	return b.String()
 }
 
@@ -181,42 +240,94 @@ func main() {
 		if nd == nil {
 			lib.Fatalf("NewDefaultRESTStrategy not found in %s", strategyFile)
 		}
+		// which parameter is "namespaced" and which "subStatus" is found by ROLE, not by name: the struct field that
+		// NamespaceScoped() returns is the namespaced one, the only other bool field is the subStatus one, and the
+		// constructor's literal says which parameter goes into which field
 		var params []string
 		for _, f := range nd.Type.Params.List {
 			for _, n := range f.Names {
 				params = append(params, n.Name)
 			}
 		}
-		if strings.Join(params, ",") != "namespaced,subStatus" {
-			lib.Fatalf("NewDefaultRESTStrategy parameters are %v, expected (namespaced, subStatus)", params)
-		}
-		// its body must put the parameters into the fields of the same name
-		okBody := false
-		ast.Inspect(nd.Body, func(n ast.Node) bool {
-			cl, ok := n.(*ast.CompositeLit)
-			if !ok {
-				return true
+		var stFields, boolFields []string
+		for _, d := range sf.Decls {
+			gd, ok := d.(*ast.GenDecl)
+			if !ok || gd.Tok != token.TYPE {
+				continue
 			}
-			var names []string
-			for _, e := range cl.Elts {
-				if kv, ok := e.(*ast.KeyValueExpr); ok {
-					k, _ := kv.Key.(*ast.Ident)
-					v, _ := kv.Value.(*ast.Ident)
-					if k != nil && v != nil && k.Name == v.Name {
-						names = append(names, k.Name)
+			for _, sp := range gd.Specs {
+				ts := sp.(*ast.TypeSpec)
+				st, ok := ts.Type.(*ast.StructType)
+				if ts.Name.Name != "DefaultRESTStrategy" || !ok {
+					continue
+				}
+				for _, f := range st.Fields.List {
+					if len(f.Names) == 0 {
+						stFields = append(stFields, "<embedded>")
 					}
-				} else if id, ok := e.(*ast.Ident); ok {
-					names = append(names, id.Name)
+					for _, n := range f.Names {
+						stFields = append(stFields, n.Name)
+						if id, ok := f.Type.(*ast.Ident); ok && id.Name == "bool" {
+							boolFields = append(boolFields, n.Name)
+						}
+					}
 				}
 			}
-			j := strings.Join(names, ",")
-			if strings.HasSuffix(j, "namespaced,subStatus") {
-				okBody = true
+		}
+		nsField := ""
+		if ns := lib.FuncDecl(sf, "DefaultRESTStrategy", "NamespaceScoped"); ns != nil && ns.Body != nil && len(ns.Body.List) == 1 {
+			if rs, ok := ns.Body.List[0].(*ast.ReturnStmt); ok && len(rs.Results) == 1 {
+				if se, ok := rs.Results[0].(*ast.SelectorExpr); ok {
+					nsField = se.Sel.Name
+				}
+			}
+		}
+		subField := ""
+		for _, f := range boolFields {
+			if f != nsField {
+				if subField != "" {
+					lib.Fatalf("DefaultRESTStrategy has more than two bool fields %v: cannot tell which one is the subStatus flag", boolFields)
+				}
+				subField = f
+			}
+		}
+		if nsField == "" || subField == "" {
+			lib.Fatalf("cannot find the namespaced / subStatus fields of DefaultRESTStrategy (NamespaceScoped returns %q, bool fields %v)", nsField, boolFields)
+		}
+		idxNamespaced, idxSubStatus = -1, -1
+		paramIdx := func(e ast.Expr) int {
+			if id, ok := e.(*ast.Ident); ok {
+				for i, p := range params {
+					if p == id.Name {
+						return i
+					}
+				}
+			}
+			return -1
+		}
+		ast.Inspect(nd.Body, func(n ast.Node) bool {
+			cl, ok := n.(*ast.CompositeLit)
+			if !ok || src(g, cl.Type) != "DefaultRESTStrategy" {
+				return true
+			}
+			for i, e := range cl.Elts {
+				field, val := "", e
+				if kv, ok := e.(*ast.KeyValueExpr); ok {
+					field, val = src(g, kv.Key), kv.Value
+				} else if i < len(stFields) {
+					field = stFields[i]
+				}
+				switch field {
+				case nsField:
+					idxNamespaced = paramIdx(val)
+				case subField:
+					idxSubStatus = paramIdx(val)
+				}
 			}
 			return true
 		})
-		if !okBody {
-			lib.Fatalf("NewDefaultRESTStrategy no longer builds DefaultRESTStrategy{…, namespaced, subStatus}")
+		if idxNamespaced < 0 || idxSubStatus < 0 || len(params) != 2 {
+			lib.Fatalf("NewDefaultRESTStrategy(%v) no longer puts one parameter into %s and one into %s", params, nsField, subField)
 		}
 		singles := map[string]flags{}
 		for _, d := range sf.Decls {
